@@ -7,9 +7,10 @@
    and append (composite elements), as steps and as arbitrary valid histories over values,
    succeed and end in a representation of exactly the implied value — and compose through any
    nesting depth because the element's new backing is itself only required to be a representation.
-   Pop, packed elements, bit operations and union change at view level are tied by the
-   correspondence (see evidence "partial"); at contents-tree level set / append are proved for
-   every kind. *)
+   EVERY mutating operation of the public interface named by the property now has its theorem:
+   element assignment (vectors and lists, packed or composite elements), field assignment, append,
+   pop, bit set, Bitlist append / pop, union change.  What remains with the correspondence is that
+   the Python methods are these model functions (and root caching, C19). *)
 Require Import RM.Base RM.Gindex RM.Tree RM.Types RM.Spec RM.ModelViews RM.ModelCodec RM.ModelMut
                RM.MerkleProofs RM.CRepProofs RM.ListProofs RM.ReprProofs RM.MutProofs.
 Local Open Scope N_scope.
@@ -137,6 +138,25 @@ Theorem C04_tree_pop : forall H src e limit, basic_size e = None -> limit < 2 ^ 
   exists n', list_pop H src (TList e limit) n = Ok n' /\ Rep_list H e limit n' (removelast ns).
 Proof. exact list_pop_rep. Qed.
 
+(* bitfields: setting a bit rewrites one byte of one chunk; Bitlist.append adds a cleared bit (a zero byte /
+   zero chunk at the boundaries) and sets it; Bitlist.pop clears the bit, drops the emptied chunk, summarises *)
+Theorem C04_bitvector_set : forall H src k bs n i v, wf (TBitvector k) (VBits bs) = true -> Repr H (TBitvector k) (VBits bs) n ->
+  (0 <= i < Z.of_N k)%Z ->
+  exists n', bits_set H src (TBitvector k) n i v = Ok n' /\ Repr H (TBitvector k) (VBits (upd (Z.to_nat i) v bs)) n'.
+Proof. exact bitvector_set. Qed.
+Theorem C04_bitlist_set : forall H src l bs n i v, wf_ty (TBitlist l) = true -> wf (TBitlist l) (VBits bs) = true ->
+  Repr H (TBitlist l) (VBits bs) n -> (0 <= i < Z.of_N (lenN bs))%Z ->
+  exists n', bits_set H src (TBitlist l) n i v = Ok n' /\ Repr H (TBitlist l) (VBits (upd (Z.to_nat i) v bs)) n'.
+Proof. exact bitlist_set. Qed.
+Theorem C04_bitlist_append : forall H src l bs n v, wf_ty (TBitlist l) = true -> wf (TBitlist l) (VBits bs) = true ->
+  Repr H (TBitlist l) (VBits bs) n -> lenN bs < l ->
+  exists n', bitlist_append H src (TBitlist l) n v = Ok n' /\ Repr H (TBitlist l) (VBits (bs ++ [v])) n'.
+Proof. exact bitlist_append_repr. Qed.
+Theorem C04_bitlist_pop : forall H src l bs n, wf_ty (TBitlist l) = true -> wf (TBitlist l) (VBits bs) = true ->
+  Repr H (TBitlist l) (VBits bs) n -> bs <> [] ->
+  exists n', bitlist_pop H src (TBitlist l) n = Ok n' /\ Repr H (TBitlist l) (VBits (removelast bs)) n'.
+Proof. exact bitlist_pop_repr. Qed.
+
 Theorem C04_union_change : forall H (b : bool) os sel o x m, (0 <= sel)%Z -> (sel < Z.of_N (lenN os + (if b then 1 else 0))%N)%Z ->
   union_opt b os (Z.to_nat sel) = Some o -> Repr H o x m ->
   exists n', union_change H (TUnion b os) sel (Some m) = Ok n' /\ Repr H (TUnion b os) (VUnion (Z.to_nat sel) (Some x)) n'.
@@ -171,6 +191,10 @@ Print Assumptions C04_list_pop_any.
 Print Assumptions C04_list_history_any.
 Print Assumptions C04_list_pop.
 Print Assumptions C04_tree_pop.
+Print Assumptions C04_bitvector_set.
+Print Assumptions C04_bitlist_set.
+Print Assumptions C04_bitlist_append.
+Print Assumptions C04_bitlist_pop.
 Print Assumptions C04_union_change.
 Print Assumptions C04_union_change_none.
 Print Assumptions C04_tree_append.
